@@ -308,7 +308,7 @@ def fileSync (c : Cfg) (f : FileSt) : Bool :=
 
 /-- **write error on a part flush, the process continues**: the storage accepts `n` more bytes of the current segment
 file and then fails (n smaller than any part).  `step` is `write` or `gwrite`.  If this step flushes a part into the
-existing file (part switch, segment switch or drift close), the flush fails: `formatFMP4Segment.write` sets
+existing file (part switch or segment switch), the flush fails: `formatFMP4Segment.write` sets
 `curPart = nil` BEFORE looking at the error, so the failed part is dropped (never written again), the error stops the
 instance, `close` writes the duration and closes the file: header + the parts flushed before + `n` torn bytes. -/
 def writeFault (step : Cfg → St → In → St) (c : Cfg) (s : St) (x : In) (n : Nat) : St :=
@@ -320,6 +320,9 @@ def writeFault (step : Cfg → St → In → St) (c : Cfg) (s : St) (x : In) (n 
     let fault (f : FileSt) : St :=
       { s' with closed := true, seg := none,
                 files := s.files ++ [{ f with parts := sg.flushed, torn := n }] }
+    -- drift error: track.write returns the error BEFORE writing anything; the part is flushed when the instance closes,
+    -- i.e. after the error has been reported and the storage works again: nothing fails
+    if s'.closed then s' else
     if s'.files.length > s.files.length then
       match s'.files.getLast? with
       | some f => if f.number == sg.number && f.parts.length > sg.flushed.length then fault f else s'
